@@ -401,3 +401,35 @@ func init() {
 	execs["C02"] = execTopa
 	execs["TOPA"] = execTopa
 }
+
+// runCLIDevFull runs the binary with stdout connected to /dev/full
+func runCLIDevFull(timeout time.Duration, args ...string) (code int, timedOut bool) {
+	cmd := exec.Command(opts.gobin, args...)
+	full, err := os.OpenFile("/dev/full", os.O_WRONLY, 0)
+	if err != nil {
+		return -2, false
+	}
+	defer full.Close()
+	cmd.Stdout = full
+	var e bytes.Buffer
+	cmd.Stderr = &e
+	if err := cmd.Start(); err != nil {
+		return -1, false
+	}
+	done := make(chan error, 1)
+	go func() { done <- cmd.Wait() }()
+	select {
+	case err := <-done:
+		if err != nil {
+			if ee, ok := err.(*exec.ExitError); ok {
+				return ee.ExitCode(), false
+			}
+			return 1, false
+		}
+		return 0, false
+	case <-time.After(timeout):
+		cmd.Process.Kill()
+		<-done
+		return -1, true
+	}
+}
